@@ -108,6 +108,16 @@ func c08Sane(dump string, byHop bool) bool {
 func c08Race(line string, byHop bool, fresh func() (do func(op string), dump func() string, commit func())) string {
 	ops := c08RaceOps(line)
 	tries := c08RaceTries()
+	// what the real code yields when the ops run one after the other, in every order (only used to
+	// pick which attempt to report: an outcome no serial order produces is worth reporting)
+	serial := map[string]bool{}
+	for _, ord := range c08Orders(ops, 120) {
+		do, dump, _ := fresh()
+		for _, op := range ord {
+			do(op)
+		}
+		serial[dump()] = true
+	}
 	out := ""
 	for a := 0; a < tries; a++ {
 		do, dump, commit := fresh()
@@ -124,10 +134,36 @@ func c08Race(line string, byHop bool, fresh func() (do func(op string), dump fun
 		close(start)
 		wg.Wait()
 		out = dump()
-		if !c08Sane(out, byHop) || a == tries-1 {
+		if !c08Sane(out, byHop) || !serial[out] || a == tries-1 {
 			commit()
 			break
 		}
 	}
 	return "race ; " + out
+}
+
+// c08Orders: the distinct orders of a multiset of ops (at most limit of them).
+func c08Orders(ops []string, limit int) [][]string {
+	var res [][]string
+	var rec func(rest []string, acc []string)
+	rec = func(rest []string, acc []string) {
+		if len(res) >= limit {
+			return
+		}
+		if len(rest) == 0 {
+			res = append(res, append([]string(nil), acc...))
+			return
+		}
+		seen := map[string]bool{}
+		for i, op := range rest {
+			if seen[op] {
+				continue
+			}
+			seen[op] = true
+			next := append(append([]string(nil), rest[:i]...), rest[i+1:]...)
+			rec(next, append(acc, op))
+		}
+	}
+	rec(ops, nil)
+	return res
 }
